@@ -205,6 +205,44 @@ def r_activity(ctx):
     c15.r8(ctx)
 
 
+def r9(ctx):
+    """'when nothing is due the master sleeps until the EARLIEST deadline': where an association has both a next-poll time and a
+    keep-alive time, the NotBefore it reports is their minimum. 'User requests are executed in the order submitted and ahead of
+    periodic polls': a queued request that cancels itself at its pre-send step does not hide the requests queued behind it - the
+    queue is drained until one starts or it is empty."""
+    prog = ctx.prog
+    gb = prog.body("master::association::Association::get_next_task")
+    gs = ctx.sym(gb)
+    ls = lambda x: mentions_call(x, r"Association::next_link_status_task$")
+    nt = lambda x: mentions_call(x, r"Association::next_task$|TaskStates::next$|Association::next_\w+$") and not ls(x)
+    both = 0
+    for b, si, st, e in ret_sites(gb, gs):
+        if not (e[0] == "agg" and e[2] == "NotBefore"):
+            continue
+        gds = ctx.guards_at(gb, b.idx)
+        poll_nb = any(g.kind == "is" and g.name == "NotBefore" and not ls(g.a) for g in gds)
+        link_nb = any(g.kind == "is" and g.name == "NotBefore" and ls(g.a) for g in gds)
+        if poll_nb and link_nb:
+            both += 1
+            v = agg_field(e, "0")
+            ctx.check(mentions_call(v, r"::min$") and mentions(v, lambda x: x[0] == "field" and ls(x)) and mentions(v, lambda x: x[0] == "field" and not ls(x) and x[1][0] == "variant"), "not-before:min-of-both", "NotBefore(min(next poll, next keep-alive)): %s" % expr_str(v)[:90], gb.where(b.idx), bad_detail="with both a next poll and a next keep-alive pending get_next_task reports NotBefore(%s): the master can sleep past the earlier deadline" % expr_str(v)[:80])
+    ctx.check(both >= 1, "not-before:both-pending-arm", "get_next_task has an arm for 'poll later AND keep-alive later'", gb.where(line=gb.line), bad_detail="get_next_task never distinguishes the case where both the next poll and the next keep-alive lie in the future: it cannot be returning the earlier of the two")
+    pb = prog.body("master::association::Association::priority_task")
+    ps = ctx.sym(pb)
+    pops = call_sites(pb, r"VecDeque<.*>::pop_front$|::pop_front$")
+    if len(pops) != 1:
+        raise AnchorError("priority_task: pop_front sites %d" % len(pops))
+    lp = innermost_loop(pb, pops[0].idx)
+    ctx.check(lp is not None, "priority_task:drains", "priority_task pops in a loop", pb.where(pops[0].idx), bad_detail="priority_task pops a single request: if it cancels itself at start() the requests queued behind it are treated as absent (polls overtake them, or the master idles with work pending)")
+    empty = g_is(lambda x: mentions_call(x, r"pop_front$"), "None")
+    for b, si, st, e in ret_sites(pb, ps):
+        if e[0] == "agg" and e[2] == "None" or (e[0] == "const"):
+            ctx.require_guards(pb, b.idx, [("queue is empty", empty)], "priority_task:None-only-when-empty", "returning None")
+        elif e[0] not in ("agg",) and not mentions(e, lambda x: x[0] == "variant" and x[2] == "Some"):
+            # `task.start(self)` returned as is: a None from start() would end the search with requests still queued
+            ctx.check(False, "priority_task:None-only-when-empty", "", pb.where(b.idx), bad_detail="priority_task returns `%s` directly: a request that cancels itself ends the search although others are queued" % expr_str(e)[:60])
+
+
 RULES = [
     ("C19.R1", "T2-order", "user queue before automatic work; auto, polls, link status inside an association", r1),
     ("C19.R2", "T5", "the request queue is used FIFO only", r2),
@@ -214,4 +252,5 @@ RULES = [
     ("C19.R6", "T5/T3", "single writer of requests; tasks are awaited one at a time", r6),
     ("C19.R7", "T8-namesake", "the master's scheduling configuration (keep-alive, poll periods) is plumbed field-to-namesake", r_plumb),
     ("C19.R8", "T8", "link activity is credited to the sender of the fragment (address plumbing, shared with C15.R8)", r_activity),
+    ("C19.R9", "T8/T2-loop", "NotBefore is the earlier of next poll and next keep-alive; the user queue is drained until a request starts", r9),
 ]
